@@ -87,17 +87,28 @@ package cache
 //@   ensures do1 == do2 && t1 == t2 && c1 == c2 && len(lowerOf(n1)) == len(lowerOf(n2))
 //@   ensures forall i int :: 0 <= i && i < len(lowerOf(n1)) ==> lowerOf(n1)[i] == lowerOf(n2)[i]
 
-//@ func isCacheableNOERROR
-//@   requires resp != nil && len(resp.Question) >= 1 && validRRs(resp.Answer) && validRRs(resp.Ns)
-//@   modifies nothing
 //@ func setMinTTL
 //@   requires r != nil && validRRs(r.Answer)
 //@   modifies dns.RR_Header.Ttl
 
+// C04: "only complete NOERROR/NODATA, NXDOMAIN and short-lived SERVFAIL answers
+// are cached at all".  A NOERROR answer is complete when its answer section
+// has a record of the question's type, preceded only by CNAME / SIG records
+// (an answer), or consists of CNAME / SIG records only and the authority
+// section has an SOA record (a valid NODATA answer, RFC 2308).
+//@ func isCacheableNOERROR
+//@   property C04
+//@   requires resp != nil && len(resp.Question) >= 1 && validRRs(resp.Answer) && validRRs(resp.Ns)
+//@   modifies nothing
+//@   ensures an-answer-or-a-valid-nodata-answer-and-nothing-else: ok == (answersTheQuestion(resp) || validNoData(resp))
+//@   loop 1 invariant -1 <= #i && #i < len(resp.Answer) && (forall j int :: 0 <= j && j <= #i ==> hdrOf(resp.Answer[j]).Rrtype != resp.Question[0].Qtype && cnameOrSig(resp.Answer[j]))
+//@   loop 2 invariant -1 <= #i && #i < len(resp.Ns) && (forall j int :: 0 <= j && j < len(resp.Answer) ==> hdrOf(resp.Answer[j]).Rrtype != resp.Question[0].Qtype && cnameOrSig(resp.Answer[j])) &&
+//@          (forall k int :: 0 <= k && k <= #i ==> !isptr(resp.Ns[k], dns.SOA))
 //@ func isCacheable
 //@   property C04
 //@   requires msg != nil && validRRs(msg.Answer) && validRRs(msg.Ns)
-//@   ensures only-complete-answers: ok ==> !msg.Truncated && len(msg.Question) == 1 && (msg.Rcode == 0 || msg.Rcode == 3 || msg.Rcode == 2)
+//@   modifies nothing
+//@   ensures only-complete-answers: ok == cacheable(msg)
 
 // What the cache keeps is a copy of its own: the message handed to set is
 // written to the client afterwards and may be changed in place on the way
@@ -124,3 +135,4 @@ package cache
 //@   ensures stored-under-request-key: m != nil && gstores[m.cache] == old(gstores[m.cache]) + 1 ==>
 //@             keyLayout(gkey[m.cache], old(hasDO(req)), old(req.Question[0].Qtype), old(req.Question[0].Qclass), old(req.Question[0].Name))
 //@   ensures zero-ttl-not-cached: m != nil && lastLowest == 0 ==> gstores[m.cache] == old(gstores[m.cache])
+//@   ensures only-complete-answers-are-cached-at-all: m != nil && gstores[m.cache] == old(gstores[m.cache]) + 1 ==> old(cacheable(msg))
